@@ -446,6 +446,10 @@ def run_family(ctx, pid, progs, canary=None, per=60, compile_violation=True, ext
             if compile_violation and prog.expect_compile:
                 ctx.violation("E:%s:compile:%s" % (pid, prog.meta.get("describe", pn)), "accepted program does not compile: %s" % diags[0]["message"],
                               {"layer": "E", "program": prog.text, "harness": "", "meta": prog.meta, "rustc": diags[:3]})
+        for prog in progs[ci:ci + per]:
+            if not prog.expect_compile and prog.name not in rej:
+                ctx.violation("E:%s:must-refuse:%s" % (pid, prog.meta.get("describe", prog.name)), "a program that must be refused compiles",
+                              {"layer": "E", "program": prog.text, "harness": "", "meta": prog.meta})
     stats["kani_wall_s"] = round(stats["kani_wall_s"], 1)
     stats["rustc_wall_s"] = round(stats["rustc_wall_s"], 1)
     return stats
